@@ -2,7 +2,7 @@
    Statements + `exact` only. *)
 From Coq Require Import Reals List Bool Arith ZArith.
 From Coquelicot Require Import Complex.
-From QV Require Import Sem Mat2 Toff2 Chain Vchain RelPhase McxModel GenLib Majority Gen_majority MajorityGen.
+From QV Require Import Sem Mat2 Toff2 Chain Vchain RelPhase McxModel McxPlaced LinearMcx GenLib Majority Gen_majority MajorityGen.
 Import ListNotations.
 Open Scope nat_scope.
 
@@ -39,6 +39,29 @@ Theorem C05_lemma9 : forall (anc tgt : nat), anc <> tgt ->
   forall psi b, S (G (S (G psi))) b = psi (if P1 b && P2 b then flipq tgt b else b).
 Proof. exact lemma9. Qed.
 Print Assumptions C05_lemma9.
+
+
+(* LinearMcx, general branch (k >= 6 controls), any control pattern: the gate list of the model (four alternating V-chains
+   on the placements controls[:k1]+controls[k1:2k1-2]+[anc] and controls[k1:]+[anc]+controls[k1-k2+2:k1]+[target]) is the
+   exact multi-controlled X on the pattern; the borrowed ancilla k+1 and all controls are restored for EVERY input state *)
+Theorem C05_linear_mcx : forall k pat psi b, 6 <= k ->
+  srun (linear_mcx k pat false) psi b = psi (if pmatch pat k b then flipq k b else b).
+Proof. exact linear_mcx_pattern. Qed.
+Print Assumptions C05_linear_mcx.
+
+(* McxVchainDirty with k = j+3 >= 4 controls, one target, exact mode, any control pattern (X conjugation read per control) *)
+Theorem C05_vchain_pattern : forall j pat psi b, 1 <= j ->
+  srun (vchain (j + 3) 1 pat false false) psi b
+  = psi (if pmatch pat (j + 3) b then flipq (j + 3 + (j + 1)) b else b).
+Proof. exact vchain_pattern. Qed.
+Print Assumptions C05_vchain_pattern.
+
+(* the V-chain on ANY placement of controls, ancillas and target that are pairwise distinct *)
+Theorem C05_vchain_placed : forall (cq aq : nat -> nat) (tq j : nat),
+  NoDup (used_c cq j ++ used_a aq j ++ [tq]) ->
+  forall psi b, srun (general1_p cq aq tq j false) psi b = psi (if all_c cq j b then flipq tq b else b).
+Proof. exact general1_exact. Qed.
+Print Assumptions C05_vchain_placed.
 
 (* majority: the degree list is TRANSLATED FROM THE SOURCE on every run (Gen_majority.majority_degrees);
    the emitted MCX list flips the target iff at least half of the controls are 1 *)
